@@ -5,7 +5,7 @@ meta.json and print a markdown table for DESIGN.md section 5."""
 import json, os, subprocess, sys, glob
 
 VERIF = os.path.dirname(os.path.dirname(os.path.abspath(__file__)))
-EXTRA = {"C03-1": ["C04"], "C05-2": ["C13"], "C02-1": ["C04"], "C04-1": ["C02", "C18"], "C18-2": ["C04"]}
+EXTRA = {"C13-5": ["C14"], "C03-1": ["C04"], "C05-2": ["C13"], "C02-1": ["C04"], "C04-1": ["C02", "C18"], "C18-2": ["C04"]}
 
 only = None
 for a in sys.argv[1:]:
